@@ -112,11 +112,17 @@ func descSteps(steps []Step) []string {
 			if s.CB {
 				out[j] += fmt.Sprintf(" with creation-time callback %d", j)
 			}
+			if s.Near > 0 {
+				out[j] += fmt.Sprintf(" (name and kind of instrument %d, different %s)", s.Near, []string{"", "description", "unit", "description and unit"}[s.Mode])
+			}
 			if s.Bad > 0 {
 				out[j] += fmt.Sprintf(" name class %d (1 leading digit, 2 empty, 3 256 chars, 4 bad character, 5 255 chars)", s.Bad)
 			}
 		case opRegister:
 			out[j] = fmt.Sprintf("%d: RegisterCallback on meter %d instruments %v -> registration %d", j, s.Arg, s.Obs, j)
+			if len(s.Extra) > 0 {
+				out[j] += fmt.Sprintf(" (the callback also observes %v)", s.Extra)
+			}
 		case opRecord:
 			out[j] = fmt.Sprintf("%d: record measurement %d on instrument %d", j, j, s.Arg)
 		default:
